@@ -1,0 +1,60 @@
+//! Verification hooks. Only compiled with `--cfg raptorq_verif`; re-exports crate-private items
+//! read-only so that an external harness can compare them against an independent reference.
+//! Nothing in here is used by the library itself.
+
+pub use crate::base::deg;
+pub use crate::base::intermediate_tuple;
+pub use crate::constraint_matrix::enc_indices;
+pub use crate::constraint_matrix::generate_constraint_matrix;
+pub use crate::constraint_matrix::generate_constraint_matrix_no_hdpc;
+#[cfg(feature = "std")]
+pub use crate::encoder::verif_plan_cache_capacity;
+#[cfg(feature = "std")]
+pub use crate::encoder::verif_plan_cache_clear;
+#[cfg(feature = "std")]
+pub use crate::encoder::verif_plan_cache_snapshot;
+pub use crate::matrix::BinaryMatrix;
+pub use crate::matrix::DenseBinaryMatrix;
+pub use crate::octet::OCTET_MUL;
+#[cfg(feature = "std")]
+pub use crate::octet::OCTET_MUL_HI_BITS;
+#[cfg(feature = "std")]
+pub use crate::octet::OCTET_MUL_LOW_BITS;
+pub use crate::octet::Octet;
+pub use crate::octet::verif_oct_exp;
+pub use crate::octet::verif_oct_log;
+pub use crate::octets::BinaryOctetVec;
+pub use crate::octets::add_assign;
+pub use crate::octets::fused_addassign_mul_scalar;
+pub use crate::octets::fused_addassign_mul_scalar_binary;
+pub use crate::octets::mulassign_scalar;
+pub use crate::octets::verif_kernels;
+pub use crate::rng::rand;
+pub use crate::sparse_matrix::SparseBinaryMatrix;
+pub use crate::symbol_slab::SymbolSlab;
+pub use crate::systematic_constants::MAX_SOURCE_SYMBOLS_PER_BLOCK;
+pub use crate::systematic_constants::SYSTEMATIC_INDICES_AND_PARAMETERS;
+pub use crate::systematic_constants::calculate_p1;
+pub use crate::systematic_constants::extended_source_block_symbols;
+pub use crate::systematic_constants::num_hdpc_symbols;
+pub use crate::systematic_constants::num_intermediate_symbols;
+pub use crate::systematic_constants::num_ldpc_symbols;
+pub use crate::systematic_constants::num_lt_symbols;
+pub use crate::systematic_constants::num_pi_symbols;
+pub use crate::systematic_constants::systematic_index;
+pub use crate::util::int_div_ceil;
+
+use crate::base::ObjectTransmissionInformation;
+
+/// `ObjectTransmissionInformation::generate_encoding_parameters` (crate-private) as is.
+pub fn generate_encoding_parameters(
+    transfer_length: u64,
+    max_packet_size: u16,
+    decoder_memory_requirement: u64,
+) -> ObjectTransmissionInformation {
+    ObjectTransmissionInformation::generate_encoding_parameters(
+        transfer_length,
+        max_packet_size,
+        decoder_memory_requirement,
+    )
+}
